@@ -317,6 +317,12 @@ TYPES = [None, None, 'str', 'str', 'int', 'number', 'float', 'dimen', 'length', 
 
 
 def gen_sig(r):
+    if r.random() < 0.04:
+        # the \openout form: control sequence, optional equals, value up to the next blank
+        w = r.choice(WORDS)
+        eq = r.choice(['=', ' = ', ' '])
+        return {'kind': 'sig', 'sig': 'a:cs = b:any', 'call': '\\zqfoo' + eq + w + ' ', 'expect': {'a': ['source', '\\zqfoo'], 'b': ['text', w]},
+                'feats': ['cs', 'equals', 'any']}
     nargs = r.choice([1, 2, 2, 3, 3, 4, 5, 6])
     sig = []
     call = ''
